@@ -412,7 +412,15 @@ func newLexerRule(p *load.Program, f *fsm, s *oblig.Set, fld map[string]int) {
 		return
 	}
 	input := absint.Key(st.F[fld["input"]])
-	rdr := absint.Key(st.F[fld["rdr"]])
+	// the reader field is found by what it is (a strings.Reader), not by its name
+	rdr := ""
+	if stt, ok := st.T.Underlying().(*types.Struct); ok {
+		for i := 0; i < stt.NumFields(); i++ {
+			if strings.HasSuffix(stt.Field(i).Type().String(), "strings.Reader") {
+				rdr = absint.Key(st.F[i])
+			}
+		}
+	}
 	from, to := absint.Key(st.F[fld["from"]]), absint.Key(st.F[fld["to"]])
 	if input == "IN" && strings.Contains(rdr, "strings.NewReader(IN)") && from == "0" && to == "0" {
 		s.OK("N6", key, pos, "input = parameter, reader over the parameter, span starts at 0")
